@@ -507,7 +507,14 @@ func runC13(p *Prog, r *Report, tier string) {
 			r.ok("T-eq", "T-eq/InitGenesis/threshold-default", c.pos(), "default threshold is 1")
 		}
 		if flow.given != nil {
-			c.requireCut("G-cut", "genesis-threshold!=0", []Atom{A("!(0 == p2.SignatureThreshold.Amount)")}, []ssa.Instruction{flow.given})
+			// the given threshold is tested, or whatever value is about to be stored is
+			g := []Atom{A("!(0 == p2.SignatureThreshold.Amount)")}
+			if flow.set != nil {
+				if a := c.args(flow.set); len(a) == 2 {
+					g = append(g, A("!(0 == "+a[1]+".Amount)"))
+				}
+			}
+			c.requireCut("G-cut", "genesis-threshold!=0", g, []ssa.Instruction{flow.given})
 		}
 		// no other value is ever stored
 		for _, s := range c.calls("k.SetSignatureThreshold") {
